@@ -221,3 +221,6 @@ def run(ctx):
     # ... and a component that fits must be let in: the move guard and the capacity arithmetic of can_put (each placed entry counts once)
     from .C13 import r13_3
     r13_3(ctx)
+    # an idle worker is offered only through the team whose ID it carries: every method that adds a member sets that ID (C04)
+    from .C04 import r4_5
+    r4_5(ctx)
